@@ -15,6 +15,7 @@ def kv (key : String) (toks : List String) : Option String :=
 
 structure St where
   listeners : List (String × String × String) := []
+  tl : List String := []        -- (hex) names of the listeners started through the teamserver (their names begin with "tl-")
 
 def insertS (x : String) : List String → List String
   | [] => [x]
@@ -31,7 +32,11 @@ def step (st : St) (l : Line) : St × Verdict :=
     | "ladd", [n, p, c] => d0.listenerAdd n p c
     | "lrem", [n] => d0.listenerRemove n
     | _, _ => d0
-  let st' : St := { listeners := d1.listeners }
+  let tl' : List String := match l.op, l.args with
+    | "tladd", n :: _ => if st.tl.contains n then st.tl else st.tl ++ [n]
+    | "tlrem", n :: _ => st.tl.filter (· ≠ n)
+    | _, _ => st.tl
+  let st' : St := { listeners := d1.listeners, tl := tl' }
   match l.impl.head?, kv "Lagents" l.impl, kv "Llinks" l.impl, kv "Ragents" l.impl, kv "Rlinks" l.impl,
       kv "Rdangling" l.impl, kv "Rlisteners" l.impl, kv "mid" l.impl with
   | some res, some la, some ll, some ra, some rl, some rd, some rlst, some mid =>
@@ -52,7 +57,14 @@ def step (st : St) (l : Line) : St × Verdict :=
       | some m => (st', .specFail "C10.crash-dangling" s!"killed inside {l.op} {l.args.take 2} right after {m}: TS_Links names an agent a restart does not reload")
       | none =>
         let want := sortS (d1.listeners.map fun (n, p, c) => s!"{n}|{p}|{c}")
-        let got := if rlst = "-" then [] else sortS (rlst.splitOn ";")
+        let gotAll := if rlst = "-" then [] else sortS (rlst.splitOn ";")
+        -- listeners started through the teamserver (its own configuration text): compared by name
+        let isTl (s : String) : Bool := ((s.splitOn "|").headD "").startsWith "746c2d"
+        let gotTl := sortS ((gotAll.filter isTl).map fun s => (s.splitOn "|").headD "")
+        let got := gotAll.filter (fun s => !isTl s)
+        if gotTl ≠ sortS tl' then
+          (st', .specFail "C10.listeners" s!"after {l.op} {l.args.take 2}: a restart brings back the listeners {gotTl} (hex names); started and not removed through the teamserver are {sortS tl'}")
+        else
         if got ≠ want then
           if got.length ≠ want.length ∨ got.map (fun s => (s.splitOn "|").headD "") ≠ want.map (fun s => (s.splitOn "|").headD "") then
             (st', .specFail "C10.listeners" s!"after {l.op}: persisted listeners {got.map (fun s => (s.splitOn "|").headD "")} expected {want.map (fun s => (s.splitOn "|").headD "")}")
